@@ -851,6 +851,27 @@ fn dedup_sweep() {
         let n6 = b.module_ref().types_global_values.len();
         if v1 != v0 || n6 != n5 + 1 { println!("MISMATCH explicit type_vector_id with the id of an identical declaration after {}: ids {} {}, declarations {} -> {}", la, v0, v1, n5, n6); }
     }
+    // C06: the hand-written constant methods: 32- and 64-bit values with a zero and a non-zero high word survive assemble-then-load
+    {
+        use rspirv::binary::Assemble;
+        for v in [0u64, 7, 0xffff_ffff, 0x1_0000_0000, 0x1234_5678_9abc_def0, u64::MAX] {
+            let mut b = Builder::new();
+            b.set_version(1, 3);
+            let t64 = b.type_int(64, 0);
+            let f64t = b.type_float(64, None);
+            let t32 = b.type_int(32, 1);
+            let _ = b.constant_bit64(t64, v);
+            let _ = b.spec_constant_bit64(t64, v);
+            let _ = b.constant_bit64(f64t, v);
+            let _ = b.constant_bit32(t32, v as u32);
+            let _ = b.spec_constant_bit32(t32, (v >> 32) as u32);
+            let m = b.module();
+            match rspirv::dr::load_words(m.assemble()) {
+                Ok(l) => { if format!("{:?}", l) != format!("{:?}", m) { println!("MISMATCH constants of value {:#x}: the loaded module differs from the built one", v); } }
+                Err(e) => println!("MISMATCH constants of value {:#x}: the loader rejects the assembled module: {:?}", v, e),
+            }
+        }
+    }
     println!("checked pairs {}", checked);
 }
 
